@@ -36,7 +36,7 @@ func (v Variant) SigID() string {
 var outNames = []string{"a", "b", "m", "arr"}
 
 // every name the family can use for a variable (decoys of the importer in T2)
-var allNames = []string{"a", "b", "m", "arr", "c", "f", "g", "p", "q", "i", "k", "v"}
+var allNames = []string{"a", "b", "m", "arr", "c", "f", "g", "h", "p", "q", "i", "k", "v"}
 
 var swapNames = map[string]string{"a": "b", "b": "a"}
 
